@@ -51,6 +51,8 @@ def main():
             k = os.path.basename(patch).split("_")[0] if not checks_only else os.path.basename(os.path.dirname(patch)).split("-")[1]
             rid = f"{pid}-{k}"
             dst = os.path.join(VERIF, "refactors", rid)
+            if not checks_only and os.path.exists(os.path.join(dst, "meta.json")) and "--force" not in sys.argv:
+                continue    # confirmed and stored in an earlier run
             sh("git checkout -- . && git clean -fdq", cwd=wt)
             if sh(f"git apply {patch}", cwd=wt)[0]:
                 print(f"{rid}: patch does not apply")
